@@ -296,7 +296,7 @@ ARMS = [(loc, x) for loc in ("on:START_REPLICATION", "on:STARTING",
         for x in (("stop",), ("start",), ("step",), ("initialize",),
                   ("upto", MID), ("end_replication",), ("cleanup",))]
 PLAIN = [("initialize",), ("start",), ("step",), ("stop",), ("upto", MID),
-         ("uptoi", 2.0), ("end_replication",), ("cleanup",)]
+         ("uptoi", 2.0), ("upto", END), ("end_replication",), ("cleanup",)]
 
 
 def alphabet(with_arms=True):
@@ -723,6 +723,15 @@ def judge_b(name):
         if name == "S1" and outs[2] == "ok" and state not in (
                 ("STOPPED", "STARTED"), ("ENDED", "ENDED")):
             bad.append(("I5-accepted-stop-but-not-stopped", state))
+        # a stop that was accepted before any event ran cannot be followed by
+        # the complete run
+        if name == "S1" and outs[2] == "ok" and \
+                state == ("ENDED", "ENDED"):
+            names = [x[0] for x in o["stream"]]
+            if "STOPPING" in names and "EXEC" in names and \
+                    names.index("STOPPING") < names.index("EXEC"):
+                bad.append(("I5-stop-accepted-before-the-first-event-was-lost",
+                            state))
         if name == "S2" and state != ("ENDED", "ENDED"):
             bad.append(("I5-end_replication-did-not-end", state))
         if name == "S5cleanup" and state != ("NOT_INITIALIZED",
